@@ -1203,13 +1203,24 @@ func decidersOf(p *Prog, in ssa.Instruction, mode *bool) (ds []verbDecider, opaq
 // constant patterns; they are evaluated here on every string of up to 6 items over
 // {"{%", "%}", " ", "\t", "verbatim", "endverbatim", "x", "-"} and compared with `{%` blanks* NAME blanks* `%}`.
 func ruleC06VerbatimTags(p *Prog, a *Anchors, r *Report) {
-	r.Begin("R-C06-VERBTAG", "the conditions under which the lexer enters/leaves verbatim mode, evaluated as constant patterns on all strings of up to 6 items over {{%,%},space,tab,verbatim,endverbatim,x,-}, hold exactly for `{%` blanks* (end)verbatim blanks* `%}` at the position, and the lexer advances by exactly the tag", 2)
+	r.Begin("R-C06-VERBTAG", "the conditions under which the lexer enters/leaves verbatim mode, evaluated as constant patterns on all strings of up to 6 items over {{%,%},verbatim,endverbatim,x,-} and the blanks of the tag language (space, tab, CR), hold exactly for `{%` blanks* (end)verbatim blanks* `%}` at the position, and the lexer advances by exactly the tag", 2)
 	run := p.Method("lexer", "run")
 	if run == nil {
 		r.Unk("anchor", "-", "anchor unresolved: (*lexer).run")
 		return
 	}
-	alphabet := []string{"{%", "%}", " ", "\t", "verbatim", "endverbatim", "x", "-"}
+	// the blanks of the tag language: the lexer's own set of white space (tokenSpaceChars) without the line feed, which
+	// no tag may contain — space, tab and CR on the pinned tree. A verbatim tag is "like any other tag": what may stand
+	// around the name of an `if` may stand around `verbatim` ({%\rendverbatim\r%} must end the block)
+	blanks := " \t\r"
+	if c, ok := p.Pkg.Types.Scope().Lookup("tokenSpaceChars").(*types.Const); ok && c.Val().Kind() == constant.String {
+		blanks = strings.ReplaceAll(constant.StringVal(c.Val()), "\n", "")
+	}
+	blankClass := "[" + regexp.QuoteMeta(blanks) + "]"
+	alphabet := []string{"{%", "%}", "verbatim", "endverbatim", "x", "-"}
+	for _, b := range blanks {
+		alphabet = append(alphabet, string(b))
+	}
 	var inputs []string
 	var gen func(prefix string, left int)
 	gen = func(prefix string, left int) {
@@ -1228,10 +1239,10 @@ func ruleC06VerbatimTags(p *Prog, a *Anchors, r *Report) {
 	judge := func(f *ssa.Function, b *ssa.BasicBlock, in ssa.Instruction, name, key string, mode *bool) {
 		for _, ctx := range t2DeciderContexts(p, run, in, mode, 2) {
 			ds, opaque := ctx.ds, ctx.opaque
-			ref := regexp.MustCompile(`^\{%[ \t]*` + name + `[ \t]*%\}`)
+			ref := regexp.MustCompile(`^\{%` + blankClass + `*` + name + blankClass + `*%\}`)
 			// a tag that carries a block NAME is outside what the property speaks about (the engine may refuse it, or
 			// implement Django's named verbatim blocks): not compared
-			named := regexp.MustCompile(`^\{%[ \t]*` + name + `[ \t]+[A-Za-z0-9_]+[ \t]*%\}`)
+			named := regexp.MustCompile(`^\{%` + blankClass + `*` + name + blankClass + `+[A-Za-z0-9_]+` + blankClass + `*%\}`)
 			if opaque != "" {
 				r.Assume(key, p.InstrPos(in), "the switch is (also) decided by %s, not by constant patterns: what it accepts is not evaluated here", opaque)
 				continue
